@@ -58,6 +58,15 @@ def collect(prob):
     return out, mz, res, [k for k in recs if k not in seen]
 
 
+def site_grid_slack(prob, t):
+    """The total-site record integrates the utility pseudo-streams (isothermal ones carry the artificial 0.1 K glide) over a grid rounded
+    to 6 decimals: each end of each utility may sit up to 5e-7 K off its row, so the integrated duty is only defined up to
+    2e-6 K x (heat-capacity flow rate of the utilities) -- a resolution limit of the code (tol = 1e-6 K), not a property failure."""
+    hu, cu = utility_lists(t)
+    spans = [max(abs(u["t_supply"] - u["t_target"]), 0.1) for u in prob["utilities"]] + [0.1]
+    return 2e-6 * (sum(abs(x) for x in hu) + sum(abs(x) for x in cu)) / min(spans)
+
+
 def gen_cases(ctx, n):
     probs = [(dict(streams=[dict(zone="A", name="h", t_supply=200.0, t_target=100.0, heat_flow=100.0, dt_cont=10.0, htc=1.0)], utilities=[]),
               dict(zones=1, shapes=["only_hot"], regime="none")),                                            # D1 witness
@@ -93,7 +102,7 @@ def run(ctx):
             continue
         for k, xs, t, kind in recs:
             hu, cu = utility_lists(t)
-            cf.add(f"c02_b eps6 [{'; '.join(c01.coq_sin(s) for s in xs)}] {qlit(t.Qh)} {qlit(t.Qc)} {qlit(t.Qr)} {qlist(hu)} {qlist(cu)}")
+            cf.add(f"c02_b eps6 {qlit(site_grid_slack(prob, t) if kind == 'TS' else 0.0)} [{'; '.join(c01.coq_sin(s) for s in xs)}] {qlit(t.Qh)} {qlit(t.Qc)} {qlit(t.Qr)} {qlist(hu)} {qlist(cu)}")
             meta.append((prob, m, k, kind, xs, t, hu, cu))
     agree = bad = 0
     short_zones = {id(prob) for (prob, m, k, kind, xs, t, hu, cu) in meta
